@@ -2973,10 +2973,15 @@ func (r *Resolver) lookupV4Nss(ctx context.Context, q dns.Question, authservers 
 				errors.Is(err, context.DeadlineExceeded) {
 				return err
 			}
-			if errors.Is(err, middleware.ErrResolutionAttemptLimit) {
+			if errors.Is(err, middleware.ErrResolutionAttemptLimit) ||
+				errors.Is(err, middleware.ErrResolutionCapacity) {
 				// RFC 9520 keys by question tuple: exhausting one NS
 				// hostname must not prevent trying the delegation's other
-				// hostnames.
+				// hostnames. A lookup shed for capacity is the same kind of
+				// answer — about this process, not about the host — and
+				// if it leaves the delegation without a server it must
+				// come back as itself rather than as "no reachable
+				// authority", which would be filed against the zone.
 				lastAttemptLimit = err
 				zlog.Debug("Lookup NS ipv4 address reached attempt limit", "query", dnsutil.FormatQuestion(q), "ns", name)
 				continue
@@ -3482,6 +3487,7 @@ func (r *Resolver) recordResolutionZoneFailure(ctx context.Context, q dns.Questi
 		errors.Is(cause, context.DeadlineExceeded) ||
 		errors.Is(cause, middleware.ErrRecursionWorkLimit) ||
 		errors.Is(cause, middleware.ErrResolutionAttemptLimit) ||
+		errors.Is(cause, middleware.ErrResolutionCapacity) ||
 		errors.Is(cause, middleware.ErrMaxRecursion) {
 		return
 	}
